@@ -5,6 +5,7 @@ package main
 // current tree. Where a formula is involved it is still discharged by the solver.
 
 import (
+	"sort"
 	"fmt"
 	"go/ast"
 	"go/constant"
@@ -311,6 +312,24 @@ func censusJSONTags(w *World, r *Report) []*Obligation {
 			}
 		}
 		out = append(out, censusObl("C14", name, "census", posStr(w.Fset, tn.Pos()), "JSON keys of "+wt.typ+": named fields encoded, pairwise distinct (case-insensitively), expected kinds", len(problems) == 0, strings.Join(problems, "; ")))
+		// The round trip of these structs is encoding/json's own struct encoding (assumed contract:
+		// escaping, U+FFFD, field-by-field decoding). A hand-written (un)marshaler on the type or its
+		// pointer replaces that contract and is outside it until it carries one of its own.
+		var custom []string
+		for _, t := range []types.Type{tn.Type(), types.NewPointer(tn.Type())} {
+			ms := types.NewMethodSet(t)
+			for _, mn := range []string{"MarshalJSON", "UnmarshalJSON", "MarshalText", "UnmarshalText"} {
+				if sel := ms.Lookup(nil, mn); sel != nil {
+					if _, isFunc := sel.Obj().(*types.Func); isFunc {
+						custom = append(custom, types.TypeString(t, func(*types.Package) string { return "" })+"."+mn)
+					}
+				}
+			}
+		}
+		sort.Strings(custom)
+		out = append(out, censusObl("C14", fmt.Sprintf("C14/%s.%s/codec#1", p.Name(), wt.typ), "census", posStr(w.Fset, tn.Pos()),
+			wt.typ+" is encoded and decoded by encoding/json's struct codec (no MarshalJSON / UnmarshalJSON / MarshalText / UnmarshalText on the type or its pointer)",
+			len(custom) == 0, "custom codec outside the assumed contract of encoding/json: "+strings.Join(custom, ", ")))
 	}
 	return out
 }
